@@ -25,7 +25,7 @@ Lemma ev_unfold n r e :
     | EEscape _ => Err Stuck
     | ELit l =>
         match l with
-        | LFloat q => Ok (VNum (imm_round q))
+        | LFloat q => Ok (VNum q)
         | LInt z => Ok (VInt z)
         | LString s => Ok (VStr s)
         | LTy t => Ok (VTy t)
@@ -290,10 +290,6 @@ Proof.
   intros a. rewrite ev_unfold. reflexivity.
 Qed.
 
-Lemma imm_round_one : imm_round float_one = float_one.
-Proof. vm_compute. reflexivity. Qed.
-Lemma imm_round_zero : imm_round float_zero = float_zero.
-Proof. vm_compute. reflexivity. Qed.
 Lemma nonzero_one : is_nonzero float_one = true.
 Proof. vm_compute. reflexivity. Qed.
 Lemma nonzero_zero : is_nonzero float_zero = false.
